@@ -206,6 +206,8 @@ def float_probe(ctx):
 
 
 def check(ctx):
+    from harness import formulas
+    formulas.check_formulas(ctx, ['Mean._accumulate_obj'])
     rng = ctx.rng
     ncases = ctx.scale(400, 6000)
     cases = []
